@@ -142,8 +142,210 @@ theorem terminal_outcomes (specs : List Spec) (hne : specs ≠ []) (acts : List 
     unfold step doInitRet
     cases a <;> simp only [] <;> (repeat' split) <;> grind
 
+/-- T1 tie for the real tecdsa chains (facts re-read from pkg/tecdsa/{dkg,signing}/states.go on
+    every run): every `Next()` of both chains constructs the next state with
+    `BaseAsyncState: <receiver>.BaseAsyncState`, i.e. hands the one message history over, and the
+    chains have the expected shape (6 and 12 states, ending in `finalizationState`). -/
+theorem real_chains_hand_over_history :
+    Gen.C15.dkgNextKeepsHistory = List.replicate (Gen.C15.dkgChain.length - 1) 1 ∧
+    Gen.C15.signingNextKeepsHistory = List.replicate (Gen.C15.signingChain.length - 1) 1 ∧
+    Gen.C15.dkgChain.length = 6 ∧ Gen.C15.signingChain.length = 12 ∧
+    Gen.C15.dkgChain.getLast? = some "finalizationState" ∧
+    Gen.C15.signingChain.getLast? = some "finalizationState" := by decide
+
 example : (run [{ need := 1 }, { need := 1 }]
     [.deliver ⟨1, 7⟩, .recv, .initRet, .deliver ⟨0, 8⟩, .recv, .tick, .done, .initRet, .tick, .done]).out
     = some (.final 1) := by decide
+
+/-! ## receive path: FIFO, nothing lost -/
+
+def deliveredActs : List Act → List Msg
+  | [] => []
+  | .deliver m :: r => m :: deliveredActs r
+  | _ :: r => deliveredActs r
+
+theorem deliveredActs_append (a b : List Act) : deliveredActs (a ++ b) = deliveredActs a ++ deliveredActs b := by
+  induction a with
+  | nil => rfl
+  | cons x r ih => cases x <;> simp [deliveredActs, ih]
+
+/-- receive-path invariant: what was delivered = what `Receive` got ++ what waits in `recvChan`
+    ++ what was refused after cancellation/termination. -/
+def Fifo (s : St) (d : List Msg) : Prop :=
+  ∃ rest, d = s.hist ++ s.chan ++ rest ∧ rest.length = s.dropped ∧
+    (s.cancelled = false ∧ s.out = none → rest = [])
+
+theorem fifo_step (specs : List Spec) (s : St) (a : Act) (d : List Msg) (h : Fifo s d) :
+    Fifo (step specs s a) (d ++ deliveredActs [a]) := by
+  obtain ⟨rest, hd, hl, hr⟩ := h
+  unfold step doInitRet
+  cases a with
+  | deliver m =>
+    simp only [deliveredActs]
+    split
+    · exact ⟨rest ++ [m], by simp [hd], by simp [hl], by intro ⟨_, h2⟩; simp_all⟩
+    · split
+      · exact ⟨rest ++ [m], by simp [hd], by simp [hl], by intro ⟨h1, _⟩; simp_all⟩
+      · have : rest = [] := hr ⟨by simp_all, by cases h : s.out <;> simp_all⟩
+        subst this
+        exact ⟨[], by simp [hd], by simpa using hl, fun _ => rfl⟩
+  | recv =>
+    simp only [deliveredActs, List.append_nil]
+    split
+    · exact ⟨rest, hd, hl, hr⟩
+    · split
+      · exact ⟨rest, hd, hl, hr⟩
+      · rename_i m r heq
+        exact ⟨rest, by simp [hd, heq], hl, by simpa using hr⟩
+  | initRet =>
+    simp only [deliveredActs, List.append_nil]
+    repeat' split
+    all_goals exact ⟨rest, hd, hl, by simpa using hr⟩
+  | initAuto =>
+    simp only [deliveredActs, List.append_nil]
+    repeat' split
+    all_goals exact ⟨rest, hd, hl, by simpa using hr⟩
+  | tick =>
+    simp only [deliveredActs, List.append_nil]
+    repeat' split
+    all_goals exact ⟨rest, hd, hl, by simpa using hr⟩
+  | done =>
+    simp only [deliveredActs, List.append_nil]
+    repeat' split
+    all_goals first
+      | exact ⟨rest, hd, hl, by simpa using hr⟩
+      | exact ⟨rest, hd, hl, by simp⟩
+  | cancel =>
+    simp only [deliveredActs, List.append_nil]
+    split
+    · exact ⟨rest, hd, hl, hr⟩
+    · exact ⟨rest, hd, hl, by simp⟩
+  | ctxDone =>
+    simp only [deliveredActs, List.append_nil]
+    repeat' split
+    all_goals first
+      | exact ⟨rest, hd, hl, by simpa using hr⟩
+      | exact ⟨rest, hd, hl, by simp⟩
+
+theorem fifo_run (specs : List Spec) (acts : List Act) (s : St) (d : List Msg) (h : Fifo s d) :
+    Fifo (acts.foldl (step specs) s) (d ++ deliveredActs acts) := by
+  induction acts generalizing s d with
+  | nil => simpa [deliveredActs] using h
+  | cons a r ih =>
+    have := ih _ _ (fifo_step specs s a d h)
+    have e : d ++ deliveredActs (a :: r) = d ++ deliveredActs [a] ++ deliveredActs r := by
+      rw [show a :: r = [a] ++ r from rfl, deliveredActs_append, List.append_assoc]
+    rw [e]
+    exact this
+
+/-- **no_message_lost**: under every schedule, the messages delivered to the machine are exactly,
+    in order: those handed to `Receive` (= the history), then those still waiting in `recvChan`,
+    then those refused because the machine was already cancelled or had returned.  Nothing is
+    lost, duplicated or reordered on the receive path, and nothing is refused while the machine
+    is alive. -/
+theorem no_message_lost (specs : List Spec) (acts : List Act) :
+    ∃ refused, deliveredActs acts = (run specs acts).hist ++ (run specs acts).chan ++ refused ∧
+      refused.length = (run specs acts).dropped ∧
+      ((run specs acts).cancelled = false ∧ (run specs acts).out = none → refused = []) := by
+  have := fifo_run specs acts {} [] ⟨[], by simp, by simp, fun _ => rfl⟩
+  simpa [Fifo, run] using this
+
+
+/-! ## catch-up of a late member -/
+
+/-- a state that has just been entered: `Initiate` running, nothing signalled, machine alive -/
+def Fresh (s : St) : Prop :=
+  s.out = none ∧ s.initRunning = true ∧ s.sig = none
+
+/-- one round of the catch-up schedule: `Initiate` returns, the ticker sees `CanTransition`,
+    the receive loop takes `onStateDone`. -/
+def round : List Act := [.initRet, .tick, .done]
+
+theorem round_advance (specs : List Spec) (s : St) (hf : Fresh s)
+    (hcan : can specs s.cur s.hist = true)
+    (hie : (specAt specs s.cur).initErr = false) (hne : (specAt specs s.cur).nextErr = false) :
+    let s' := round.foldl (step specs) s
+    s'.hist = s.hist ∧
+    (if s.cur + 1 < specs.length then Fresh s' ∧ s'.cur = s.cur + 1
+     else s'.out = some (.final s.cur)) := by
+  obtain ⟨h1, h2, h3⟩ := hf
+  simp [round, step, doInitRet, h1, h2, h3, hcan, hie, hne]
+  split <;> simp_all [Fresh]
+
+/-- **catch_up**: a member that is late — it enters state `cur` when its history already holds
+    the messages of `cur` and of every later state, because they arrived early and were kept —
+    visits every remaining state in order without receiving anything more and ends in the
+    final state. -/
+theorem catch_up (specs : List Spec) (n : Nat) (s : St) (hf : Fresh s)
+    (hn : s.cur + n = specs.length) (hpos : 0 < n)
+    (hcan : ∀ k, s.cur ≤ k → k < specs.length → can specs k s.hist = true)
+    (hok : ∀ k, k < specs.length → (specAt specs k).initErr = false ∧ (specAt specs k).nextErr = false) :
+    ((List.replicate n round).flatten.foldl (step specs) s).out = some (.final (specs.length - 1)) := by
+  induction n generalizing s with
+  | zero => omega
+  | succ n ih =>
+    have hlt : s.cur < specs.length := by omega
+    have hr := round_advance specs s hf (hcan _ (Nat.le_refl _) hlt) (hok _ hlt).1 (hok _ hlt).2
+    simp only [List.replicate_succ, List.flatten_cons, List.foldl_append]
+    obtain ⟨hh, hrest⟩ := hr
+    by_cases hlast : s.cur + 1 < specs.length
+    · rw [if_pos hlast] at hrest
+      obtain ⟨hf', hc'⟩ := hrest
+      apply ih _ hf' (by omega) (by omega)
+      · intro k hk1 hk2; rw [hh]; exact hcan k (by omega) hk2
+    · rw [if_neg hlast] at hrest
+      have hn0 : n = 0 := by omega
+      subst hn0
+      simp only [List.replicate_zero, List.flatten_nil, List.foldl_nil]
+      rw [hrest]; congr; omega
+
+/-- early messages: deliveries and receive-loop steps while `Initiate` of state 0 is still
+    running leave the machine in state 0 with exactly those messages in its history. -/
+theorem early_messages (specs : List Spec) (msgs : List Msg) (s : St) (hf : Fresh s)
+    (hc : s.cancelled = false) (hch : s.chan = []) :
+    let s' := (msgs.flatMap fun m => [Act.deliver m, .recv]).foldl (step specs) s
+    Fresh s' ∧ s'.cur = s.cur ∧ s'.hist = s.hist ++ msgs ∧ s'.cancelled = false ∧ s'.chan = [] := by
+  induction msgs generalizing s with
+  | nil => simpa using ⟨hf, hc, hch⟩
+  | cons m r ih =>
+    obtain ⟨h1, h2, h3⟩ := hf
+    simp only [List.flatMap_cons, List.foldl_append, List.foldl_cons, List.foldl_nil]
+    have := ih (step specs (step specs s (.deliver m)) .recv)
+      (by simp [step, h1, hc, hch, Fresh, h2, h3]) (by simp [step, h1, hc, hch]) (by simp [step, h1, hc, hch])
+    simp only at this
+    refine ⟨this.1, ?_, ?_, this.2.2.2⟩
+    · rw [this.2.1]; simp [step, h1, hc, hch]
+    · rw [this.2.2.1]; simp [step, h1, hc, hch]
+
+/-- **late_member_catches_up**: if every message the chain needs is received while the member is
+    still initiating state 0 (it lags behind the whole group), it afterwards walks through all
+    states `0, 1, …, n-1` in order and finishes — early messages were kept, none is needed again. -/
+theorem late_member_catches_up (specs : List Spec) (msgs : List Msg) (hne : specs ≠ [])
+    (hcan : ∀ k, k < specs.length → can specs k msgs = true)
+    (hok : ∀ k, k < specs.length → (specAt specs k).initErr = false ∧ (specAt specs k).nextErr = false) :
+    let s := run specs ((msgs.flatMap fun m => [Act.deliver m, .recv]) ++
+                        (List.replicate specs.length round).flatten)
+    s.out = some (.final (specs.length - 1)) ∧ initiated s.log = List.range specs.length := by
+  have hlen : 0 < specs.length := List.length_pos_iff.mpr hne
+  have he := early_messages specs msgs {} ⟨rfl, rfl, rfl⟩ rfl rfl
+  simp only at he
+  obtain ⟨hf, hcur, hh, _, _⟩ := he
+  have hcur0 : (run specs (msgs.flatMap fun m => [Act.deliver m, .recv])).cur = 0 := hcur
+  have hh0 : (run specs (msgs.flatMap fun m => [Act.deliver m, .recv])).hist = msgs := by
+    have : (run specs (msgs.flatMap fun m => [Act.deliver m, .recv])).hist = ([] : List Msg) ++ msgs := hh
+    simpa using this
+  have hf0 : Fresh (run specs (msgs.flatMap fun m => [Act.deliver m, .recv])) := hf
+  have hfin : (run specs ((msgs.flatMap fun m => [Act.deliver m, .recv]) ++
+      (List.replicate specs.length round).flatten)).out = some (.final (specs.length - 1)) := by
+    rw [run_append]
+    apply catch_up specs specs.length _ hf0 (by rw [hcur0]; simp) hlen
+    · intro k _ hk; rw [hh0]; exact hcan k hk
+    · exact hok
+  refine ⟨hfin, ?_⟩
+  rw [no_skip]
+  have ht := (terminal_outcomes specs hne _).2 _ hfin
+  simp only at ht
+  rw [← ht.1]; congr 1; omega
+
 
 end KeepVerif.C15
